@@ -1184,6 +1184,10 @@ impl TypeChecker {
     ) -> TypeResult<(&'a Meta<Identifier>, Declaration)> {
         let mut ident = idents.next().unwrap();
 
+        // The first identifier is looked up through the enclosing scopes,
+        // unless it follows `super`: then it names a member of that module.
+        let mut recurse = true;
+
         while ident.node == "super".into() {
             let Some(dec) = self.type_info.scope_graph.parent_module(scope)
             else {
@@ -1199,6 +1203,7 @@ impl TypeChecker {
             };
 
             scope = s;
+            recurse = false;
 
             let Some(tmp_ident) = idents.next() else {
                 return Ok((ident, dec));
@@ -1211,7 +1216,6 @@ impl TypeChecker {
         // The current implementation is a bit strange because it uses
         // resolve_name, but after the first identifier, it should actually
         // not really traverse the scope graph.
-        let mut recurse = true;
         loop {
             if ident.node == "super".into() {
                 return Err(self.error_simple(
